@@ -514,7 +514,7 @@ def evalSingleArgument (cfg : Cfg) (h : HState) (ai : It) : Res (HState × It ×
   match ai.cur.ty with
   | .singleCharArg => processArg cfg h (Key.ofChar ai.cur.ch) ai
   | .stringArg => do
-    let key ← Key.parse ai.cur.str
+    let key ← wordKey ai.cur.str       -- `"--" + mArgString` for a one-character name, else `mArgString`
     processArg cfg h key ai
   | .control =>
     if ai.cur.ch == '(' || ai.cur.ch == ')' then pure (h, ai, .unknown)    -- no bracket handlers
